@@ -68,7 +68,10 @@ def check_relabel(case, sub="relabel"):
     n, mask, perm = case["n"], case["mask"], case["perm"]
     perm = list(np.argsort(np.argsort(perm[:n]))) if len(perm) >= n else list(range(n))
     a = rg.adj_from_mask(n, mask)
-    b = guarded(sub, "plain", rm.relabel, a.copy(), np.array(perm))
+    a_in = a.copy()
+    b = guarded(sub, "plain", rm.relabel, a_in, np.array(perm))
+    if not np.array_equal(a_in, a):
+        raise Violation(sub, "argument-mutated", "relabel", "plain", "the adjacency matrix passed in was changed")
     b = np.asarray(b)
     for u in range(n):
         for v in range(n):
@@ -110,8 +113,11 @@ def check_iso(case, sub="iso"):
 
     with warnings.catch_warnings():
         warnings.simplefilter("ignore")
-        res = guarded(sub, icls, rm.iso_finder, a.copy(), n_iso, **kw)
-        res2 = guarded(sub, icls, rm.iso_finder, a.copy(), n_iso, **kw)
+        a_in = a.copy()
+        res = guarded(sub, icls, rm.iso_finder, a_in, n_iso, **kw)
+        res2 = guarded(sub, icls, rm.iso_finder, a_in, n_iso, **kw)
+        if not np.array_equal(a_in, a):
+            raise Violation(sub, "argument-mutated", "iso_finder", icls, "the adjacency matrix passed in was changed")
     maps = None
     if case["label_map"]:
         if not (isinstance(res, tuple) and len(res) == 2):
@@ -204,6 +210,7 @@ def check_orbit(case, sub="orbit"):
     cl = gg.classes(n, mask) + [method]
     icls = method
     np.random.seed(case.get("seed", 0))
+    g_before = (list(g.nodes), sorted(tuple(sorted(e)) for e in g.edges))
     distinct_iso = distinct_adj = False
     first_is_input = True
     if method == "lc_orbit_finder":
@@ -239,6 +246,8 @@ def check_orbit(case, sub="orbit"):
         first_is_input = False
     else:
         raise ValueError(method)
+    if (list(g.nodes), sorted(tuple(sorted(e)) for e in g.edges)) != g_before or any(d for *_, d in g.edges(data=True)) or any(d for _, d in g.nodes(data=True)):
+        raise Violation(sub, "argument-mutated", method, icls, "the graph passed in was changed (nodes, edges or attributes)")
     masks = []
     for h in out:
         if h.number_of_nodes() != n:
